@@ -29,7 +29,7 @@ RULE = ("0-8 agents with arbitrary subsets of 4 component types and tags from {d
 COMPONENTS = {"real": ["ECAgent.Core.Environment.get_agents / get_random_agent / shuffle / add_agent / remove_agent",
                        "Agent.has_component", "Model.random", "SpaceWorld (some runs)"],
               "stub": ["component classes and agents are harness-defined; global random / numpy.random are perturbed"]}
-PROBES = ["agent_class_slotted_or_with_own_attributes", "negative_tag", "unfinished_walk_before_the_query", "position_subclass_component", "tag_zero_filter", "template_and_tag", "nobody_matches", "partial_template_match", "returned_list_mutated",
+PROBES = ["world_of_an_earlier_run_under_a_model_that_is_garbage_now", "world_handed_to_a_fresh_model_and_the_old_one_collected", "agent_class_slotted_or_with_own_attributes", "negative_tag", "unfinished_walk_before_the_query", "position_subclass_component", "tag_zero_filter", "template_and_tag", "nobody_matches", "partial_template_match", "returned_list_mutated",
           "reach_all_members", "same_seed_repeat", "type_nobody_has", "spatial_world", "default_tag_agent", "retag_while_resident", "model_lifecycle_op", "subclass_component_only", "agent_is_an_environment", "ops_from_inside_a_timestep", "agent_class_with_class_components", "removal_refused_half_way", "history_continued_on_a_copy"]
 TECHNIQUE = "deterministic simulation: filter queries inside seeded add/remove histories vs a list-comprehension reference; bounded reachability over reseeded model generators; ambient RNG perturbation between picks"
 LEVEL_TEXT = ("Seeded search over populations, histories, templates and tag filters; every listing must equal the reference filter "
@@ -164,6 +164,12 @@ def generate(rng, tier):
         for o_ in ops:
             if o_.get("tag", "absent") != "absent" and rng.random() < 0.5:
                 o_["tag"] = -1
+    if rng.random() < 0.1:
+        ops.insert(rng.randint(0, len(ops)), {"op": "handover"})
+    out["handed_over"] = rng.random() < 0.12
+    if out["handed_over"]:
+        for _ in range(rng.randint(1, 3)):
+            ops.insert(rng.randint(len(ops) // 3, len(ops)), {"op": "gc"})
     if rng.random() < 0.25:
         for o_ in ops:
             if "tmpl" in o_ and rng.random() < 0.5:
@@ -171,11 +177,41 @@ def generate(rng, tier):
     return out
 
 
-def execute(sc, ctx):
-    m = Model(seed=sc["seed"])
-    spatial = sc["world"] == "space"
+def _world_of_an_earlier_run(seed, spatial):
+    """The world served an earlier run under another model: populated, emptied again and handed to a fresh model
+    (set_model / set_environment). The earlier model is unreachable when this returns - cyclic garbage, collected whenever
+    the collector next runs."""
+    old = Model(seed=seed + 17)
     if spatial:
-        m.environment = SpaceWorld(m, 5.0, 4.0)
+        old.environment = SpaceWorld(old, 5.0, 4.0)
+    env = old.environment
+    for j in range(3):
+        a = Agent(f"earlier{j}", old)
+        a.add_component(T0(a, old))
+        env.add_agent(a, 1.0, 1.0) if spatial else env.add_agent(a)
+    for j in range(3):
+        env.remove_agent(f"earlier{j}")
+    new = Model(seed=seed)
+    env.set_model(new)
+    new.set_environment(env)
+    return new
+
+
+def execute(sc, ctx):
+    spatial = sc["world"] == "space"
+    if sc.get("handed_over"):
+        # garbage collection is an event of the schedule here: the automatic collector is off for the run, `gc` ops run it
+        import gc
+        gc.collect()
+        gc.disable()
+        ctx.cleanups.append(gc.enable)
+        m = _world_of_an_earlier_run(sc["seed"], spatial)
+        ctx.probe("world_of_an_earlier_run_under_a_model_that_is_garbage_now")
+    else:
+        m = Model(seed=sc["seed"])
+        if spatial:
+            m.environment = SpaceWorld(m, 5.0, 4.0)
+    if spatial:
         ctx.probe("spatial_world")
     env = m.environment
     residents = []     # reference: agents in joining order
@@ -278,6 +314,41 @@ def execute(sc, ctx):
             residents.remove(hit[0])
             ctx.event("remove", spec["id"])
             shape.append(["rm", len(residents)])
+            continue
+        if kind == "gc":
+            import gc
+            gc.collect()
+            ctx.fault("lifetime.collector_runs")
+            continue
+        if kind == "handover":
+            # the world is kept for the next run: emptied, handed to a fresh model (set_model / set_environment), the previous
+            # model dropped and garbage-collected, then repopulated with agents built for the new model
+            if ctx.in_step or stuck or any(isinstance(a, Environment) for a in residents):
+                continue
+            import gc
+            again = [sp for a_ in residents for sp in pool if sp["id"] == a_.id]
+            for a in list(residents):
+                ctx.expect_ok("remove", env.remove_agent, a.id)
+            m2 = Model(seed=sc["seed"] + 1)
+            ctx.expect_ok("set_model", env.set_model, m2)
+            ctx.expect_ok("set_environment", m2.set_environment, env)
+            m = m2
+            m2 = a = None
+            residents.clear()
+            objs.clear()
+            del held_lists[:], last_lists[:], held_walks[:]
+            gc.collect()
+            ctx.fault("lifetime.model_discarded")
+            ctx.probe("world_handed_to_a_fresh_model_and_the_old_one_collected")
+            for sp in again:
+                a = make(sp)
+                if spatial:
+                    ctx.expect_ok("add", env.add_agent, a, 1.0, 2.0)
+                else:
+                    ctx.expect_ok("add", env.add_agent, a)
+                residents.append(a)
+                objs[sp["id"]] = a
+            ctx.event("handover", [a.id for a in residents])
             continue
         if kind == "branch":
             if not ctx.in_step:
